@@ -259,3 +259,90 @@ _mk_compute(True)
 _mk_compute(False)
 
 _ = OneOf
+
+
+# ------------------------------------------------------------------------------------------------- hand-off to the tail zone
+TS, TE = z3.Function("TAIL_START_NS", I, I), z3.Function("TAIL_END_NS", I, I)  # bounds of the tail map's interval containing t
+
+
+def tail_bounds(t):
+    return sym.mk_int(TS(SInt.lift(t))), sym.mk_int(TE(SInt.lift(t)))
+
+
+class TailedZoneG(ZoneG):
+    """as ZoneG, but with a tail map seen through the zone-interval-map interface contract ZONE:
+         contains:  TS(t) <= t < TE(t)
+         partition: TS(t) <= u < TE(t)  ->  the interval of u is the interval of t
+    (`contains` is proved for the alternating map in contracts/c04_altmap.py; `partition` is an interface assumption)"""
+
+    def make(self, name, b):
+        from pyvc.values import SObj
+        from pyoda_time import Duration, Instant
+        from pyoda_time.time_zones._standard_daylight_alternating_map import _StandardDaylightAlternatingMap as M
+        from pyoda_time.time_zones._zone_interval import ZoneInterval
+
+        zone = super().make(name, b)
+        n = zone.fields["$n"]
+        # with a tail the last period ends at a finite instant: the tail start
+        b.assumptions.pop()  # drop "end(n-1) is the end-of-time marker" added by ZoneG
+        b.assume(And(f(ED, n - 1) >= V.INSTANT_MIN_DAYS, f(ED, n - 1) <= V.INSTANT_MAX_DAYS))
+        tail_start = end_ns(n - 1)
+        s0, e0 = tail_bounds(tail_start)
+        b.assume(And(s0 <= tail_start, tail_start < e0))
+
+        def mk_instant_ns(ns):
+            return SObj(Instant, {"_Instant__duration": SObj(Duration, {"_Duration__days": sym.floordiv(ns, V.NPD), "_Duration__nano_of_day": sym.mod(ns, V.NPD)}, owner=-1)}, owner=-1)
+
+        zone.fields["_PrecalculatedDateTimeZone__tail_zone"] = SObj(M, {"$tail": True}, owner=-1, tag=name + ".tail")
+        # class invariant (constructor): the tail's interval at the tail start, clamped to start there
+        zone.fields["_PrecalculatedDateTimeZone__first_tail_zone_interval"] = SObj(ZoneInterval, {"_ZoneInterval__raw_start": mk_instant_ns(tail_start), "_ZoneInterval__raw_end": mk_instant_ns(e0), "$first_tail": True}, owner=-1)
+        zone.fields["$tail_start"] = tail_start
+        return zone
+
+
+def _tail_setup(eng):
+    from pyvc.values import SObj
+    from pyoda_time import Duration, Instant
+    from pyoda_time.time_zones._standard_daylight_alternating_map import _StandardDaylightAlternatingMap as M
+    from pyoda_time.time_zones._zone_interval import ZoneInterval
+
+    def m_tail(eng, self_, instant):
+        t = V.inst_ns(instant)
+        s, e = tail_bounds(t)
+        ts = eng.contract_ns.self.fields["$tail_start"]
+        s0, e0 = tail_bounds(ts)
+        lo_ok = Or(s == V.DUR_MIN_DAYS * V.NPD, And(s >= V.INSTANT_MIN_NS, s <= V.INSTANT_MAX_NS))
+        hi_ok = Or(e == V.DUR_MAX_DAYS * V.NPD, And(e >= V.INSTANT_MIN_NS, e <= V.INSTANT_MAX_NS))
+        eng.assume(And(s <= t, t < e, lo_ok, hi_ok, Implies(And(s <= ts, ts < e), And(s0 == s, e0 == e))))
+
+        def mk(ns):
+            return SObj(Instant, {"_Instant__duration": SObj(Duration, {"_Duration__days": sym.floordiv(ns, V.NPD), "_Duration__nano_of_day": sym.mod(ns, V.NPD)}, owner=eng.active_runs[-1])}, owner=eng.active_runs[-1])
+
+        return SObj(ZoneInterval, {"_ZoneInterval__raw_start": mk(s), "_ZoneInterval__raw_end": mk(e), "$from_tail": True}, owner=eng.active_runs[-1])
+
+    eng.func_models[vars(M)["get_zone_interval"]] = m_tail
+
+
+@contract(PZ + "get_zone_interval", "C04", name="_PrecalculatedDateTimeZone.get_zone_interval (with a tail zone): before the tail start the binary search answers, from it on the tail map does, and the first tail interval is clamped to start at the tail start -- the returned interval always contains the instant and never reaches back before the tail start")
+def _(c):
+    c.arg("self", TailedZoneG()).arg("instant", InstantG())
+    c.setup = _tail_setup
+    c.crosscheck = 0
+    c.replayable = False
+    c.timeout_s = 60
+    n = lambda a: V.fld(a.self, "$n")  # noqa: E731
+    t = lambda a: V.inst_ns(a.instant)  # noqa: E731
+    ts = lambda a: V.fld(a.self, "$tail_start")  # noqa: E731
+
+    def inv(v, a):
+        lo, up = v.lower, v.upper
+        return And(lo >= 0, lo <= up, up <= n(a), Implies(lo > 0, end_ns(lo - 1) <= t(a)), Implies(up < n(a), start_ns(up) > t(a)))
+
+    c.loop("pyoda_time.time_zones._precalculated_date_time_zone:_PrecalculatedDateTimeZone.get_zone_interval", 0, inv, variant=lambda v, a: v.upper - v.lower)
+
+    def post(a, r):
+        s = V.inst_ns(V.fld(r, "_ZoneInterval__raw_start"))
+        e = V.inst_ns(V.fld(r, "_ZoneInterval__raw_end"))
+        return And(s <= t(a), t(a) < e, Implies(t(a) >= ts(a), s >= ts(a)))
+
+    c.returns(post)
